@@ -1167,6 +1167,84 @@ func runHashPrimitives(c *Ctx, prims map[*ssa.Function]string) {
 		}
 		c.Check(len(cmp) == 0, "H2", "gtfs", "times are compared as instants only", "-", fmt.Sprintf("none of the %d equality tests of the hasher compares time.Time structs", n), "time.Time values are compared with == ("+strings.Join(cmp, "; ")+"): equal instants presented in different zones compare unequal, so the hash depends on the zone presentation")
 	}
+	// H2: what is encoded is the field's value, not a value some helper folded several field values into: a helper of
+	// the module whose result goes into the hash and that answers on one path with its (numeric) parameter and on
+	// another with a constant maps every input of the second kind to one number -- two values that differ there hash
+	// the same ("unknown enum numbers are hashed as the default")
+	{
+		var folds []string
+		nArgs := 0
+		for _, hf := range hashFns(c) {
+			for _, b := range hf.Blocks {
+				for _, in := range b.Instrs {
+					call, ok := in.(*ssa.Call)
+					if !ok {
+						continue
+					}
+					for _, a := range call.Call.Args {
+						if mi, isMI := a.(*ssa.MakeInterface); isMI {
+							a = mi.X
+						}
+						inner, isCall := a.(*ssa.Call)
+						if !isCall || inner.Call.IsInvoke() {
+							continue
+						}
+						g := inner.Call.StaticCallee()
+						if g == nil || !c.P.isModuleFn(g) || len(g.Blocks) < 2 || g.Signature.Results().Len() != 1 || isProtoPkg(fnPkgPath(g)) {
+							continue
+						}
+						bt, isBasic := g.Signature.Results().At(0).Type().Underlying().(*types.Basic)
+						if !isBasic || bt.Info()&types.IsNumeric == 0 {
+							continue
+						}
+						nArgs++
+						hasConst, hasParam := false, false
+						for _, gb := range g.Blocks {
+							ret, isRet := gb.Instrs[len(gb.Instrs)-1].(*ssa.Return)
+							if !isRet {
+								continue
+							}
+							var walk func(v ssa.Value, d int)
+							walk = func(v ssa.Value, d int) {
+								if d > 6 {
+									return
+								}
+								switch x := v.(type) {
+								case *ssa.Const:
+									hasConst = true
+								case *ssa.Parameter:
+									hasParam = true
+								case *ssa.Phi:
+									for _, e := range x.Edges {
+										walk(e, d+1)
+									}
+								case *ssa.Convert:
+									walk(x.X, d+1)
+								case *ssa.ChangeType:
+									walk(x.X, d+1)
+								case *ssa.UnOp:
+									if al, isAl := x.X.(*ssa.Alloc); isAl && x.Op == token.MUL {
+										vals := cellStores(al)
+										if len(vals) == 0 {
+											hasConst = true // the zero value of a local
+										}
+										for _, sv := range vals {
+											walk(sv, d+1)
+										}
+									}
+								}
+							}
+							walk(ret.Results[0], 0)
+						}
+						if hasConst && hasParam {
+							folds = append(folds, shortName(g)+" at "+p.ipos(inner))
+						}
+					}
+				}
+			}
+		}
+		c.Check(len(folds) == 0, "H2", "gtfs", "no helper folds field values before they are hashed", "-", fmt.Sprintf("%d numeric helper results among the encoder arguments, none of them a choice between the value and a constant", nArgs), "a value is replaced by a constant on some path before it is hashed ("+strings.Join(folds, "; ")+"): the field values that take that path hash the same")
+	}
 	// H4: what the number encoder is given to write into takes everything it is handed: the destination of binary.Write
 	// is a growable buffer of the standard library (or the hash itself), or -- when the module stages the bytes itself
 	// -- a Write method that consumes its whole argument: a `copy` into fixed storage is repeated for the rest of the
